@@ -9,10 +9,18 @@
 (*   TRACE  environment variable: the NDJSON file recorded from the code   *)
 (*   OUT    environment variable: where the verdict record goes            *)
 (***************************************************************************)
-EXTENDS Integers, Sequences, Json, IOUtils, TLC
+EXTENDS Integers, Sequences, FiniteSets, Json, IOUtils, TLC
 Trace == ndJsonDeserialize(IOEnv.TRACE)
 SeqToSet(s) == {s[i] : i \in 1..Len(s)}
 \* observed result -> spec result (the class list becomes a set)
 ObsRet(r) == [ok |-> r.ok, cls |-> SeqToSet(r.cls), val |-> r.val]
+\* ids of the open known findings (a JSON file {"open": [...]}) the judge may use to explain an event
+OpenKF == SeqToSet(JsonDeserialize(IOEnv.KF).open)
+\* smallest set of open findings under which Explains(T) holds, as [found, ids]
+Explain(Explains(_)) ==
+  IF Explains({}) THEN [found |-> TRUE, ids |-> {}]
+  ELSE LET cands == {T \in SUBSET OpenKF : T # {} /\ Explains(T)} IN
+       IF cands = {} THEN [found |-> FALSE, ids |-> {}]
+       ELSE [found |-> TRUE, ids |-> CHOOSE T \in cands : \A U \in cands : Cardinality(T) <= Cardinality(U)]
 WriteVerdict(rec) == JsonSerialize(IOEnv.OUT, rec)
 ====
